@@ -67,13 +67,17 @@ Definition is_err {A} (o : outcome A) : bool := match o with Err _ => true | _ =
 (* ---- ASCII helpers ---- *)
 Definition is_digit (b : byte) : bool := (48 <=? bz b) && (bz b <=? 57).
 
-(* strconv.Itoa: decimal digits, most significant first *)
-Fixpoint digits_fuel (fuel : nat) (n : Z) (acc : bytes) : bytes :=
+(* digits of n >= 0 in base B, most significant first, through a digit -> byte map; at least one digit *)
+Fixpoint gen_digits (B : Z) (f : Z -> byte) (fuel : nat) (n : Z) (acc : bytes) : bytes :=
   match fuel with
   | O => acc
-  | S f => let acc' := zb (48 + n mod 10) :: acc in
-           if n / 10 =? 0 then acc' else digits_fuel f (n / 10) acc'
+  | S k => let acc' := f (n mod B) :: acc in
+           if n / B =? 0 then acc' else gen_digits B f k (n / B) acc'
   end.
+
+(* strconv.Itoa: decimal digits, most significant first *)
+Definition dec_digit (d : Z) : byte := zb (48 + d).
+Definition digits_fuel (fuel : nat) (n : Z) (acc : bytes) : bytes := gen_digits 10 dec_digit fuel n acc.
 (* 20 digits suffice for |n| < 2^64; fuel is fixed so that vm_compute never builds a huge nat.
    For n beyond 10^40 the result would be truncated: callers only pass Go ints. *)
 Definition itoa_fuel : nat := 40%nat.
@@ -160,10 +164,5 @@ Fixpoint be_val (l : bytes) (acc : Z) : Z :=
   | [] => acc
   | b :: r => be_val r (acc * 256 + bz b)
   end.
-(* minimal big-endian representation (big.Int.Bytes): empty for 0 *)
-Fixpoint be_bytes_fuel (fuel : nat) (n : Z) (acc : bytes) : bytes :=
-  match fuel with
-  | O => acc
-  | S f => if n =? 0 then acc else be_bytes_fuel f (n / 256) (zb (n mod 256) :: acc)
-  end.
-Definition be_bytes (n : Z) : bytes := be_bytes_fuel 40%nat n [].
+(* minimal big-endian representation (big.Int.Bytes, bytes.TrimLeft of binary.Write): empty for 0 *)
+Definition be_bytes (n : Z) : bytes := if n =? 0 then [] else gen_digits 256 zb 40%nat n [].
